@@ -10,6 +10,7 @@ import (
 	"encoding/hex"
 	"errors"
 	"fmt"
+	"hash/fnv"
 	"sync"
 	"time"
 
@@ -318,9 +319,9 @@ func entriesOf(manifest ch.ProposalManifest, records []ch.Record) []any {
 	if !ok {
 		return out
 	}
-	for _, id := range ids {
+	for i, id := range ids {
 		out = append(out, map[string]any{"id": dig(id.Digest), "prev": dig(id.PreviousDigest),
-			"t": manifestAuth(manifest), "c": cmdHex(manifest.CommandID)})
+			"t": manifestAuth(manifest), "c": cmdHex(manifest.CommandID), "ph": contentHash(records[i])})
 	}
 	return out
 }
@@ -477,7 +478,7 @@ func (c *cluster) commit(n ch.NodeID, expected replication.AuthorityID, cmd comm
 	cancel()
 	c.event(kit.Ev("CommitRet", "n", int(n), "cmd", cmdHex(cmd.id), "ok", err == nil, "err", errClass(err),
 		"first", int64(rc.First), "last", int64(rc.Last), "hw", int64(rc.HW), "auth", authInt(rc.Authority), "exp", authInt(expected),
-		"nrec", len(cmd.records), "variant", variantOf(changed)))
+		"nrec", len(cmd.records), "variant", variantOf(changed), "phs", contentHashes(cmd.records)))
 	return rc, err
 }
 
@@ -516,4 +517,21 @@ func variantOf(changed bool) int {
 		return 7
 	}
 	return 0
+}
+
+// contentHash identifies the semantic content of one submitted/stored record independently of the
+// entry digest (which only the owner can derive): a receipt must be for exactly the submitted content.
+func contentHash(r ch.Record) string {
+	h := fnv.New64a()
+	fmt.Fprintf(h, "%d|%d|%s|%s|%d|%v|", r.ID, r.Setting, r.FromUID, r.ClientMsgNo, r.ServerTimestampMS, r.SyncOnce)
+	h.Write(r.Payload)
+	return fmt.Sprintf("%012x", h.Sum64()&0xffffffffffff)
+}
+
+func contentHashes(rs []ch.Record) []string {
+	out := make([]string, len(rs))
+	for i, r := range rs {
+		out[i] = contentHash(r)
+	}
+	return out
 }
